@@ -610,7 +610,7 @@ PROPS["C02"] = dict(
               "Cfdp.Loop.C02_lossy_rounds", "Cfdp.Loop.C02_lossy_rounds_fair", "Cfdp.Loop.C02_two_party_nak_loop",
               "Cfdp.Loop.C02_eof_repeated", "Cfdp.Loop.C02_lost_eofs_round", "Cfdp.Loop.C02_lost_finisheds_round",
               "Cfdp.Loop.C02_from_eof_lossy_rounds", "Cfdp.Loop.C02_completion_then_lost_finisheds",
-              "Cfdp.Loop.C02_lost_metadatas_round", "Cfdp.Loop.eof_enters_md_wait"],
+              "Cfdp.Loop.C02_lost_metadatas_round", "Cfdp.Loop.eof_enters_md_wait", "Cfdp.Loop.C02_from_eof_lost_metadatas"],
     engines=["daemon", "recv", "send", "net"],
     design="§6 C02",
     technique="Lean 4 proofs of the recovery steps and of whole single-loss recovery rounds (lost data, EOF, Finished / ACK, Metadata) through both transaction models and the link, and of the receiver's NAK loop over any fair lossy schedule (any number of lossy rounds, limits derived from fairness); the whole transfer over a lossy schedule of both models is checked on two real daemons under a virtual clock with bounded fault plans",
@@ -678,7 +678,7 @@ PROPS["C02"] = dict(
                 "with NoError (C02_completion_then_lost_finisheds). "
                 "And the Metadata PDU lost again and again (Props/C02m.lean): a receiver holding the truthful EOF and every byte but no Metadata rebuilds its queue with the 0-0 marker at "
                 "every NAK-timer expiry below the limits and keeps what it has (md_round, md_repeated); whichever of those NAKs reaches the sender makes it repeat the Metadata PDU, which "
-                "completes the delivery (C02_lost_metadatas_round); the receiver gets into that state when the truthful EOF arrives at a receiver holding every byte but no Metadata (eof_enters_md_wait, Props/C02g.lean). "
+                "completes the delivery (C02_lost_metadatas_round); the receiver gets into that state when the truthful EOF arrives at a receiver holding every byte but no Metadata (eof_enters_md_wait, Props/C02g.lean), and once the ACK and the NAK with the marker have gone out it is in the loop's starting state (eof_enters_md_loop), so from the EOF on the Metadata PDU lost up to limit-1 times still ends with the delivery reported (C02_from_eof_lost_metadatas). "
                 "PARTIAL: the loop theorems are per phase (data recovery with the EOF handshake done; EOF handshake with the data complete; Metadata missing with the data complete; Finished "
                 "handshake); the sender's own timers are not events of the two-party NAK loop (its inactivity limit while it waits for NAKs is bounded by C03 / C17). The "
                 "composition of all phases over one lossy fair schedule of both models is not one theorem. It is checked on the real code: the daemon engine runs acknowledged transfers between two real daemons with every kind of fault "
